@@ -499,6 +499,8 @@ pub fn td_history(ctx: &mut Ctx, n: u64) {
     let shape = ctx.rng.below(6);
     let near = *ctx.rng.pick(&[0.1f64, 0.3, 1e-3, 7.7, 123.456, 1e10 / 3.0]);
     let weighted = ctx.rng.chance(1, 3);
+    // whole history scaled to a tiny / huge weight unit (positive weights far below f64::EPSILON)
+    let wunit = if weighted && ctx.rng.chance(1, 3) { *ctx.rng.pick(&[1e-30f64, 1e-18, 1e6]) } else { 1.0 };
     let mut inserted: Vec<f64> = vec![];
     for t in 0..n {
         let x = match shape {
@@ -519,15 +521,31 @@ pub fn td_history(ctx: &mut Ctx, n: u64) {
                 4 => 1e6,
                 5 => 0.1,
                 6 => 0.3,
+                7 => 1e-20,
                 _ => 1.0,
             };
+            let w = w * wunit;
             ctx.op(format!("td.insertw 1 {} {}", fx(x), fx(w)));
+            if ctx.rng.chance(1, 10) {
+                ctx.op("td.empty 1".into());
+                ctx.op("td.min 1".into());
+                ctx.op("td.max 1".into());
+            }
             if w > 0.0 {
                 inserted.push(x);
             }
         } else {
             ctx.op(format!("td.insert 1 {}", fx(x)));
             inserted.push(x);
+        }
+        if ctx.rng.chance(1, 25) && !inserted.is_empty() {
+            // first read after some inserts is an out-of-range cdf (data possibly still in the backlog)
+            let (lo, hi) = inserted.iter().fold((f64::INFINITY, f64::NEG_INFINITY), |(a, b), x| (a.min(*x), b.max(*x)));
+            let x = if ctx.rng.chance(1, 2) { hi + hi.abs() * 0.5 + 1.0 } else { lo - lo.abs() * 0.5 - 1.0 };
+            ctx.op(format!("td.cdf 1 {}", fx(x)));
+            if ctx.rng.chance(1, 2) {
+                ctx.op(format!("td.cdf 1 {}", fx(f64::INFINITY)));
+            }
         }
         if ctx.rng.chance(1, 12) || t + 1 == n {
             // a read somewhere in the history
